@@ -20,6 +20,7 @@ type Reply struct {
 	DelayUs int64    `json:"delay_us"` // after the probe was written
 	Quote   string   `json:"quote"`    // "" / "28": header + 8 bytes; "full"; "ext": RFC 4884 padded quote + extension
 	IPOpt   int      `json:"ipopt"`    // outer IPv4 option bytes (NOPs), 0/4/40
+	HBH     bool     `json:"hbh"`      // outer IPv6 header followed by a hop-by-hop options header (PadN)
 	QTTL    int      `json:"qttl"`     // 0: rewrite quoted TTL to 1 (what routers see); n>0: that value; -1: keep
 	QCsum   string   `json:"qcsum"`    // "" fix | "zero" | "keep"
 	QTOS    int      `json:"qtos"`     // 0 keep, else rewritten
@@ -106,6 +107,16 @@ func (r Reply) Encode(probe []byte, fl Flow) ([]byte, error) {
 	b, err := r.encode(probe, fl)
 	if err != nil {
 		return nil, err
+	}
+	if r.HBH && len(b) >= 40 && b[0]>>4 == 6 {
+		n := make([]byte, 0, len(b)+8)
+		n = append(n, b[:40]...)
+		n = append(n, b[6], 0, 1, 4, 0, 0, 0, 0) // next header, length 0 (8 bytes), PadN of 6 bytes
+		n = append(n, b[40:]...)
+		n[6] = 0 // hop-by-hop
+		pl := int(n[4])<<8 | int(n[5])
+		n[4], n[5] = byte((pl+8)>>8), byte(pl+8)
+		b = n
 	}
 	for _, p := range r.Patch {
 		if p[0] >= 0 && p[0] < len(b) {
